@@ -1,0 +1,9 @@
+//go:build !verif
+
+package groth16
+
+import "github.com/consensys/gnark-crypto/ecc/bw6-761/fr"
+
+func verifToxicWaste(*toxicWaste) {}
+
+func verifProverRS(_, _ *fr.Element) {}
